@@ -548,6 +548,13 @@ func (s *Sim) settle() {
 			break
 		}
 		if len(batch) == 0 {
+			// ops whose deadline has passed are completed ONE at a time, each followed by a
+			// wait for quiescence: several goroutines released in the same instant (three
+			// requests whose connection attempts time out together) would submit their next
+			// ops in an order nobody controls
+			if s.expireOne() {
+				continue
+			}
 			return
 		}
 		rank := func(o *op) int {
@@ -571,7 +578,6 @@ func (s *Sim) settle() {
 			s.intake(o)
 		}
 		s.autoProgress()
-		s.expire()
 	}
 }
 
@@ -634,8 +640,11 @@ func (s *Sim) intake(o *op) {
 	}
 }
 
-// expire completes ops whose deadline has passed.
-func (s *Sim) expire() {
+// expire completes the ops whose deadline has passed (one at a time, see settle).
+func (s *Sim) expire() { s.settle() }
+
+// expireOne completes the first parked op whose deadline has passed.
+func (s *Sim) expireOne() bool {
 	now := time.Now()
 	for _, o := range append([]*op(nil), s.pending...) {
 		switch o.kind {
@@ -643,12 +652,14 @@ func (s *Sim) expire() {
 			if !o.e.rdl.IsZero() && !now.Before(o.e.rdl) {
 				o.err = timeoutErr{"read"}
 				s.finish(o)
+				return true
 			}
 		case opWrite:
 			if !o.e.wdl.IsZero() && !now.Before(o.e.wdl) {
 				o.err = timeoutErr{"write"}
 				o.n = o.off
 				s.finish(o)
+				return true
 			}
 		case opDial:
 			if !o.t.IsZero() && !now.Before(o.t) {
@@ -656,9 +667,11 @@ func (s *Sim) expire() {
 				s.J.Add(s, "dial-timeout", "%s>%s", o.from, o.to)
 				s.Count("probe.dial_timeout")
 				s.finish(o)
+				return true
 			}
 		}
 	}
+	return false
 }
 
 // nextDeadline is the earliest deadline among parked ops (zero if none).
